@@ -51,7 +51,7 @@ man = {
         {"name": "analysis", "path": "/verif/analysis", "serves_properties": sorted(props.PROPS), "kind_free_text": "Python (stdlib) static analyses over the facts: CFG/dominators, def-use expressions, predicate abstraction, typestate dataflow, unit inference, value graphs"},
     ],
     "checks": checks,
-    "notes": "Technique family: static analysis only. Quick = lib target with default features; thorough = 7 configurations (no features, each single feature, debug-assertions/overflow-checks off). known_findings.json lists repaired defects (fixed: ...) and any known findings.",
+    "notes": "Technique family: static analysis only. Quick = lib target with default features; thorough = 7 configurations (no features, each single feature, debug-assertions/overflow-checks off) plus up to three positive controls per property (must-fire edits from selftest/mutants and seeded/, applied to a scratch copy of the current tree outside /repo and /verif; if an applicable control is not reported the check exits 2 as engine-broken). known_findings.json lists repaired defects (fixed: ...) and any known findings (none).",
     "not_applicable": [],
 }
 json.dump(man, open(os.path.join(HERE, "MANIFEST.json"), "w"), indent=1)
